@@ -21,6 +21,7 @@ import (
 	"os"
 	"path/filepath"
 	"sort"
+	"strconv"
 	"strings"
 
 	"trzszlint/xssa"
@@ -55,6 +56,26 @@ func paramSig(f *ssa.Function) []string {
 
 var knownSigs map[string][]string
 
+// fullName: topName for package-level functions, parent$k for closures (k counts from 1 in the parent's list).
+func fullName(f *ssa.Function) string {
+	if f == nil {
+		return ""
+	}
+	if f.Parent() == nil {
+		return topName(f)
+	}
+	pn := fullName(f.Parent())
+	if pn == "" {
+		return ""
+	}
+	for i, a := range f.Parent().AnonFuncs {
+		if a == f {
+			return fmt.Sprintf("%s$%d", pn, i+1)
+		}
+	}
+	return ""
+}
+
 func loadKnownFuncs() map[string]bool {
 	knownSigs = nil
 	b, err := os.ReadFile(filepath.Join(verifDir(), "baseline", "funcs.json"))
@@ -66,12 +87,22 @@ func loadKnownFuncs() map[string]bool {
 		return nil
 	}
 	m := map[string]bool{}
-	for n := range sigs {
+	knownAnon = map[string]int{}
+	for n, v := range sigs {
+		if strings.HasPrefix(n, "#anon:") {
+			if len(v) == 1 {
+				k, _ := strconv.Atoi(v[0])
+				knownAnon[strings.TrimPrefix(n, "#anon:")] = k
+			}
+			continue
+		}
 		m[n] = true
 	}
 	knownSigs = sigs
 	return m
 }
+
+var knownAnon map[string]int
 
 // restoreParamOrder: a function whose parameters are those of the reference tree in another order (same names and
 // types, or — when the names changed too — pairwise distinct types) gets the reference order back, in its
@@ -219,13 +250,41 @@ func inlineNewHelpers(p *Program) (map[*ssa.Function]bool, error) {
 		return n != "" && n != "init" && !known[n]
 	}
 	restoreParamOrder(p, fns)
+	// a function with more closures than on the reference tree has new ones; those that are only called on the spot
+	// are expanded like new helpers
+	ssa.WantLocalClosures = func(f *ssa.Function) bool {
+		if len(knownAnon) == 0 {
+			return false
+		}
+		n := fullName(f)
+		if n == "" {
+			return false
+		}
+		base, ok := knownAnon[n]
+		return ok && len(f.AnonFuncs) > base
+	}
+	hasNewClosures := false
+	for _, f := range fns {
+		if ssa.WantLocalClosures(f) {
+			hasNewClosures = true
+		}
+	}
 	newFns := map[*ssa.Function]bool{}
 	for _, f := range fns {
 		if isNew(f) {
 			newFns[f] = true
 		}
 	}
-	if len(newFns) == 0 {
+	if len(newFns) == 0 && !hasNewClosures {
+		for _, f := range fns {
+			if ssa.NormalizeBranches(f, false) {
+				p.Normalized++
+				expanded[f] = true
+				if msg := ssa.SanityCheckInlined(f); msg != "" {
+					return nil, fmt.Errorf("normalising the branches of %s produced inconsistent SSA: %s", f.String(), msg)
+				}
+			}
+		}
 		return nil, nil
 	}
 	for _, f := range fns {
